@@ -238,8 +238,27 @@ def all_1d_classes():
     return out
 
 
+# Strided component views: "V3fArray.y" is the FloatArray returned by V3fArray(n).y — it addresses every third float of the
+# owner's storage (stride 3), so every index computation that forgets the stride lands in another component.
+VIEW_SCALAR = {"V2fArray": "FloatArray", "V3fArray": "FloatArray", "V4fArray": "FloatArray", "V3dArray": "DoubleArray", "V3iArray": "IntArray", "V4sArray": "ShortArray",
+               "C4fArray": "FloatArray", "C3cArray": "UnsignedCharArray"}
+VIEW_CLASSES = ["V3fArray.y", "V3fArray.z", "V2fArray.x", "V4sArray.w", "V3dArray.y", "V3iArray.x", "C4fArray.a", "C3cArray.g"]
+
+
+KEEP = []
+
+
 class Codec:
     def __init__(self, name):
+        self.view = None
+        if "." in name:
+            owner, comp = name.split(".")
+            self.view = (getattr(imath, owner), comp, elem_maker(owner))
+            self.name = name; self.C = getattr(imath, VIEW_SCALAR[owner]); self.mk = elem_maker(VIEW_SCALAR[owner]); self._k = {}
+            self.is_class_elem = False
+            self.has_ro = hasattr(self.C, "makeReadOnly")
+            self.has_ifelse = hasattr(self.C, "ifelse")
+            return
         self.name = name; self.C = getattr(imath, name); self.mk = elem_maker(name); self._k = {}
         self.is_class_elem = not isinstance(self.mk(1), (int, float, bool, str))
         self.has_ro = hasattr(self.C, "makeReadOnly")
@@ -251,6 +270,15 @@ class Codec:
         return r
 
     def build(self, ks):
+        if self.view:
+            OC, comp, omk = self.view
+            owner = OC(len(ks))
+            for i in range(len(ks)): owner[i] = omk(100 + 10 * i)       # the other components hold unrelated values
+            v = getattr(owner, comp)
+            for i, k in enumerate(ks): v[i] = self.mk(k)
+            try: v._verif_owner = owner                                   # keep the owner alive with the view
+            except Exception: KEEP.append(owner)
+            return v
         a = self.C(len(ks))
         for i, k in enumerate(ks): a[i] = self.mk(k)
         return a
